@@ -595,15 +595,18 @@ end
 /-- Recursion fuel that is always sufficient: one unit per grammar level and loop iteration. -/
 def parseFuel (srcLen : Nat) : Nat := srcLen * 4 + 2000
 
-/-- `CelCompiler::compile` (syntax side): one expression, then end of input. -/
-def parseProgram (src : Str) : Except PErr Ast :=
-  match parseExpr T (parseFuel src.length) { ts := T.ofText src, depth := 0, minLit := false } with
+/-- `CelCompiler::compile` (syntax side) on a token source: one expression, then end of input. -/
+def parseFrom (fuel : Nat) (ts : σ) : Except PErr Ast :=
+  match parseExpr T fuel { ts := ts, depth := 0, minLit := false } with
   | .error e => .error e
   | .ok (a, ps) =>
     match pPeek T ps with
     | .error e => .error e
     | .ok (none, _) => .ok a
     | .ok (some _, ps') => .error ⟨T.loc ps'.ts⟩
+
+def parseProgram (src : Str) : Except PErr Ast :=
+  parseFrom T (parseFuel src.length) (T.ofText src)
 
 end
 
